@@ -19,7 +19,7 @@ func init() {
 	}
 	harness.Specs["C15"] = &harness.PropSpec{
 		ID: "C15", Test: "TestC15", Kind: "file", Level: "exploration",
-		Quick: 6000, Thorough: 100000,
+		Quick: 6000, Thorough: 65000,
 		Rule: "generated prefix history, then EVERY cell of the method x receiver-state matrix: Tx methods (Commit, Rollback, Close, Flush, " +
 			"CheckpointWAL, Alloc, AllocN, Page, RootPage, Root, SetRoot, PageSize, Active/Readonly/Writable) and Page methods (Bytes, Load, SetBytes incl. " +
 			"oversize, MarkDirty, Free, Flush, accessors) x {committed, rolled back, closed, failed commit} x {read-write, read-only}; write methods in an " +
